@@ -281,10 +281,10 @@ impl CachedBBIFileRead {
 //@sub /\.collect::<Vec<_>>\(\)/ => "" min=0
 //@sub /\.iter\(\)(?=\s*\.\s*(?:filter|cloned|copied|skip|take))/ => .clone() min=0
 //@sub /\.(?:cloned|copied)\(\)/ => "" min=0
-//@sub /\.(?:filter|skip_while|take_while)\(\|[^|]*\|(?:[^()]|\([^()]*\))*\)/ => .unknown_filter() min=0
+//@sub /\.(?:filter|skip_while|take_while)\(\s*(?:move\s+)?\|[^|]*\|(?:[^()]|\([^()]*\))*\)/ => .unknown_filter() min=0
 //@sub /\.(?:skip|take)\([^()]*\)/ => .unknown_filter() min=0
-//@sub /\.retain\(\|[^|]*\|(?:[^()]|\([^()]*\))*\)/ => .unknown_retain() min=0
-//@sub /\.(?:partition_point|binary_search_by)\(\|[^|]*\|(?:[^()]|\([^()]*\))*\)/ => .unknown_index() min=0
+//@sub /\.retain\(\s*(?:move\s+)?\|[^|]*\|(?:[^()]|\([^()]*\))*\)/ => .unknown_retain() min=0
+//@sub /\.(?:partition_point|binary_search_by)\(\s*(?:move\s+)?\|[^|]*\|(?:[^()]|\([^()]*\))*\)/ => .unknown_index() min=0
 //@ret r
 //@sig
         requires
